@@ -39,11 +39,21 @@ const ALLOC_SLACK: usize = 4096;
 /// Evaluate one case against the real decompressor under all monitors.
 pub fn check_case(c: &Case, rep: &mut Report) {
     rep.eval();
+    // the destination rectangle travels in the same event, unvalidated from the wire; what the picture decodes to has
+    // nothing to do with it: matching, inverted, extreme or arbitrary rectangles (derived from the case's content)
+    let hsh = c.hash();
+    let (dl, dt, dr, db): (u16, u16, u16, u16) = match hsh % 5 {
+        0 | 1 => (0, 0, c.w.wrapping_sub(1), c.h.wrapping_sub(1)),
+        2 => (1 + (hsh >> 8) as u16 % 9, 1 + (hsh >> 16) as u16 % 9, 0, 0),
+        3 => (65535, 0, 0, 65535),
+        _ => ((hsh >> 8) as u16, (hsh >> 24) as u16, (hsh >> 40) as u16, (hsh >> 48) as u16),
+    };
+    rep.hist(["rect-matching", "rect-matching", "rect-inverted", "rect-extreme", "rect-arbitrary"][(hsh % 5) as usize]);
     let ev = BitmapEvent {
-        dest_left: 0,
-        dest_top: 0,
-        dest_right: c.w.wrapping_sub(1),
-        dest_bottom: c.h.wrapping_sub(1),
+        dest_left: dl,
+        dest_top: dt,
+        dest_right: dr,
+        dest_bottom: db,
         width: c.w,
         height: c.h,
         bpp: c.bpp,
